@@ -28,7 +28,29 @@ struct CallInfo {
     spec: Spec,
     /// everything handed to the writer so far has reached the OS when the call returned
     flushed: bool,
+    /// what the API promises once this call has returned: 0 nothing, 1 reached the OS
+    /// (survives a process crash), 2 reached stable storage (survives a power loss)
+    promise: u8,
     op: Op,
+}
+
+/// the durability the API promises for a call that returned `oc` under policy `pol`
+fn promise_of(op: &Op, oc: &Outcome, pol: Pol) -> u8 {
+    match (op, oc) {
+        (Op::Create(_), Outcome::Created(_)) | (Op::Delete(_), Outcome::Deleted(_)) => 2,
+        (Op::Persist(true), Outcome::Persisted) => 2,
+        (Op::Persist(false), Outcome::Persisted) => 1,
+        (Op::Append { .. }, Outcome::Appended(Some(_), _)) | (Op::Truncate { .. }, Outcome::Truncated(_, _)) => {
+            if pol.fsync_per_op() {
+                2
+            } else if pol.flush_per_op() {
+                1
+            } else {
+                0
+            }
+        }
+        _ => 0,
+    }
 }
 
 fn is_suffix(small: &[(u64, Vec<u8>)], big: &[(u64, Vec<u8>)]) -> bool {
@@ -88,13 +110,14 @@ fn run_main(r: &mut Runner, rng: &mut Rng, len: usize, cfg: &CrashCfg, fixed: Op
     let mut calls: Vec<CallInfo> = Vec::new();
     let mut seen_events = 0usize;
     let mut step = |r: &mut Runner, op: Op, bm: &mut BufModel, os: &mut Vec<OsOp>, calls: &mut Vec<CallInfo>| {
-        r.apply(&op);
+        let oc = r.apply(&op);
         for e in &r.real.all_events[seen_events..] {
             bm.step(e, os);
         }
         seen_events = r.real.all_events.len();
         if !matches!(op, Op::State | Op::Dir | Op::Range { .. }) {
-            calls.push(CallInfo { os_end: os.len(), spec: r.spec.clone(), flushed: bm.is_empty(), op });
+            let promise = promise_of(&op, &oc, r.real.pol);
+            calls.push(CallInfo { os_end: os.len(), spec: r.spec.clone(), flushed: bm.is_empty(), promise, op });
         }
     };
     match fixed {
@@ -131,11 +154,17 @@ pub fn case_crash(scratch: &Path, meta: usize, id: &str, seed: u64, len: usize, 
     // replay: main-line ops up to the first crash point; then (crash, continuation ops) groups
     let mut fixed_main: Option<Vec<Op>> = None;
     let mut fixed_points: Vec<(usize, usize, Vec<Op>)> = Vec::new();
+    let mut fixed_instants: std::collections::BTreeMap<(usize, usize), usize> = Default::default();
     if let Some(case) = replay {
         let mut main = Vec::new();
         for (side, op) in &case.ops {
             match op {
-                Op::Crash { k, cut, .. } => fixed_points.push((*k, *cut, Vec::new())),
+                Op::Crash { k, cut, instant, .. } => {
+                    fixed_points.push((*k, *cut, Vec::new()));
+                    if let Some(i) = instant {
+                        fixed_instants.insert((*k, *cut), *i);
+                    }
+                }
                 _ if *side => {
                     if let Some(last) = fixed_points.last_mut() {
                         last.2.push(op.clone());
@@ -199,6 +228,19 @@ pub fn case_crash(scratch: &Path, meta: usize, id: &str, seed: u64, len: usize, 
     for _ in 0..cfg.max_points.saturating_sub(chosen.len()).min(others.len()) {
         chosen.push(others[rng.below(others.len() as u64) as usize]);
     }
+    // power-loss variants: the stable image is the prefix of the OS operations up to the last
+    // fsync before the crash instant (ordered persistence); class 3 carries the crash instant
+    let mut power: Vec<(usize, usize, usize)> = Vec::new(); // (prefix kept, crash instant, 0)
+    for (k, _, _) in chosen.clone() {
+        if rng.chance(1, 2) {
+            let kept = os[..k.min(os.len())].iter().rposition(|o| matches!(o, OsOp::Sync)).map(|i| i + 1).unwrap_or(0);
+            if kept < k {
+                power.push((kept, k, 0));
+            }
+        }
+    }
+    power.sort();
+    power.dedup();
     chosen.sort();
     chosen.dedup();
     if replay.is_some() && fixed_points.is_empty() && points.len() <= 1500 {
@@ -225,7 +267,20 @@ pub fn case_crash(scratch: &Path, meta: usize, id: &str, seed: u64, len: usize, 
     if main_dead {
         chosen.clear();
     }
-    for (k, cut, class) in chosen {
+    // merge: (prefix length, cut, class, crash instant); class 3 = power loss
+    let mut pts: Vec<(usize, usize, u8, usize)> = chosen
+        .iter()
+        .map(|(k, cut, class)| match fixed_instants.get(&(*k, *cut)) {
+            Some(i) => (*k, *cut, 3u8, *i),
+            None => (*k, *cut, *class, *k),
+        })
+        .collect();
+    if replay.is_none() || fixed_conts.is_empty() {
+        pts.extend(power.iter().map(|(kept, instant, _)| (*kept, 0usize, 3u8, *instant)));
+    }
+    pts.sort();
+    pts.dedup();
+    for (k, cut, class, instant) in pts {
         while applied < k {
             apply_os(&mut base, &os[applied], None);
             applied += 1;
@@ -241,22 +296,31 @@ pub fn case_crash(scratch: &Path, meta: usize, id: &str, seed: u64, len: usize, 
         write_image(&side.real.dir, &img_vec);
         let (oc, evs) = side.real.open(Pol::AlwaysFlush, None);
         // the `crash` line is a main-line op for the model driver
-        let crash_op = Op::Crash { k, cut, pol: Pol::AlwaysFlush };
+        let crash_op = Op::Crash { k, cut, pol: Pol::AlwaysFlush, instant: if class == 3 { Some(instant) } else { None } };
         r.ops.push((false, crash_op.clone()));
         r.annot.push(format!("{} order={}", crash_op.line(), gc_order(&evs)));
         r.out.push(dir_line(&img_vec));
         r.out.push(oc.line());
         r.stats.inc("crash.points");
         r.stats.inc(match class {
+            3 => "crash.class.power_loss_at_last_fsync",
             2 => "crash.class.file_create_remove_window",
             1 => "crash.class.inside_write",
             _ => "crash.class.op_boundary",
         });
         // calls: completed = all OS ops of the call are in the prefix; in flight = the next one
-        let completed = calls.iter().take_while(|c| c.os_end <= k).count();
-        let lo = calls.iter().enumerate().take(completed).filter(|(_, c)| c.flushed).map(|(i, _)| i + 1).last().unwrap_or(0);
+        let power_loss = class == 3;
+        let completed = calls.iter().take_while(|c| c.os_end <= instant).count();
+        // lower bound: the last call whose return promised this kind of durability
+        let need = if power_loss { 2 } else { 1 };
+        let lo = calls.iter().enumerate().take(completed).filter(|(_, c)| c.promise >= need).map(|(i, _)| i + 1).last().unwrap_or(0);
+        let _ = calls.iter().filter(|c| c.flushed).count();
         let hi = (completed + 1).min(calls.len());
-        let ctx = format!("crash after {} OS ops + {} bytes (policy {}, calls completed {}, persisted {}, started {})", k, cut, pol.tok(), completed, lo, hi);
+        let ctx = if power_loss {
+            format!("power loss after {} OS ops, stable image = the {} operations up to the last fsync (policy {}, calls completed {}, fsync-persisted {}, started {})", instant, k, pol.tok(), completed, lo, hi)
+        } else {
+            format!("crash after {} OS ops + {} bytes (policy {}, calls completed {}, persisted {}, started {})", k, cut, pol.tok(), completed, lo, hi)
+        };
         match &oc {
             Outcome::OpenOk(_) => {
                 r.out.push(effects_line(&evs));
@@ -289,7 +353,7 @@ pub fn case_crash(scratch: &Path, meta: usize, id: &str, seed: u64, len: usize, 
                         None => format!("{}: recovered state is not the state after any prefix of the calls in [{}, {}]: {}", ctx, lo, hi, diff_logical(&rec, &spec_at(completed.min(hi)).logical())),
                     };
                     r.violate("C03", what.clone());
-                    if flush_per_op {
+                    if flush_per_op && !power_loss {
                         r.violate("C02", what);
                     }
                 }
@@ -380,7 +444,7 @@ pub fn case_crash(scratch: &Path, meta: usize, id: &str, seed: u64, len: usize, 
             other => {
                 let what = format!("{}: open of the crash image failed: {:?}", ctx, other);
                 r.violate("C03", what.clone());
-                if flush_per_op {
+                if flush_per_op && !power_loss {
                     r.violate("C02", what.clone());
                 }
                 if other.is_panic() {
